@@ -47,6 +47,8 @@ def xFsObs (fs : FrameSet) (qi qv : List Int) (padded invPadded : Bytes) : Obs :
     ("iter", xFrames fs) ] ++ xQueries fs qi qv ++
   [ ("nstr", hex n.frange), ("nframes", xFrames n),
     ("istr", hex (if i.len = 0 then [] else i.frange)), ("iframes", xFrames i),
+    ("nhas", ",".intercalate (qv.map fun v => showBool (n.hasFrame v))),
+    ("ihas", ",".intercalate (qv.map fun v => showBool (i.hasFrame v))),
     ("frp", hex (xStrip padded)), ("frpw", showBool (numeralsPadded padded 3)),
     ("invp", hex (xStrip invPadded)), ("invpw", showBool (numeralsPadded invPadded 3)) ]
 
